@@ -1,5 +1,6 @@
 (* C16 — executable side of the correspondence check: the case types written by the Go harness
-   (harness/overlay/p2p/conn/verif_c16_conn_test.go, harness/overlay/p2p/verif_c16_upgrade_test.go),
+   (harness/overlay/p2p/conn/verif_c16_conn_test.go, .../verif_c16_fault_test.go,
+   harness/overlay/p2p/verif_c16_upgrade_test.go),
    the comparison of the model with what the implementation returned, and the property monitors
    evaluated on the implementation's own answers.  Depends on Model.v only.
 
@@ -223,6 +224,21 @@ Fixpoint handed_plain (ws : list bytes) (l : list (Z * Z * N * N)) : bytes :=
   | _, _ => []
   end.
 
+(* monitor (clause 2) for a wire on which every frame arrived whole and in sequence and the
+   reader's conn failed only between frames ([budget] times): a Read fails only without having
+   taken a byte - at the end of the wire, or at most [budget] times before it *)
+Fixpoint clean_reads (pos budget wire_len : Z) (reads : list readt) : bool :=
+  match reads with
+  | [] => true
+  | r :: rest =>
+    let pos' := read_pos r in
+    if (read_err r =? 0)%N then clean_reads pos' budget wire_len rest
+    else if negb (pos' =? pos) then false
+    else if pos' =? wire_len then clean_reads pos' budget wire_len rest
+    else if 0 <? budget then clean_reads pos' (budget - 1) wire_len rest
+    else false
+  end.
+
 (* monitor on the reads (clauses 2 and 3) from what each Read took off the wire.  j = frames
    accepted so far.  A Read that took bytes and returned no error must have taken exactly the
    buffer of conn.Write call j (else 3); a Read that took exactly that buffer must not fail (2) *)
@@ -375,6 +391,10 @@ Definition check (c : case) : verdict :=
     let fn := map (fun f : Z * Z * Z => let '(c, _, _) := f in c) frames_i in
     let w := walk_reads_f 0 0 readsf in
     let wire_len := fold_left Z.add (map ev_size evs) 0 in
+    let evs_data := filter (fun e => match e with EE 0 => false | _ => true end) evs in
+    let clean := forallb (fun f : Z * Z * Z => let '(_, h, g) := f in g =? h) frames_i
+                 && untouched evs_data 0
+                 && Nat.eqb (List.length evs_data) (List.length frames_i) in
     first_of [
       viol hs_ok 8;
       (* 4: every sealed frame handed to the conn - delivered, cut short or refused - was sealed
@@ -394,6 +414,14 @@ Definition check (c : case) : verdict :=
       viol (negb (w =? 3)%N) 3;
       (* 2: Write fails only with the transport, otherwise accepts all its bytes *)
       viol (write_errors_ok script 0 ws wres_i) 2;
+      (* 2: when every frame reached the wire whole and the reader's conn only ever failed
+         between frames (short reads, timeouts at frame boundaries), a reader that has hit the
+         end of the wire has returned every byte *)
+      viol (negb (clean && existsb (fun r => negb (read_err r =? 0)%N && (read_pos r =? wire_len)) reads)
+            || (Z.of_nat (List.length all_data) =? Z.of_nat (List.length handed))) 2;
+      (* 2: ... and until then no Read fails except the conn's own failures between frames *)
+      viol (negb clean || clean_reads 0 (Z.of_nat (List.length evs) - Z.of_nat (List.length evs_data))
+                                      wire_len reads) 2;
       (* model vs implementation *)
       mism (buf0 =? 0) 10;
       mism (list_eqb2 (fun (a : Z * Z * N) (b : Z * Z * N * N) =>
